@@ -41,14 +41,34 @@ func verifBuildRuleObject(n int, maxLen int, withDisabled bool) (*ObjectSchema, 
 	rules := make([]verifRuleSet, n)
 	for i := 0; i < n; i++ {
 		nm := verifPropNames[i]
-		r := verifRuleSet{
-			required:   nondetBool(nm + ".required"),
-			hasDefault: nondetBool(nm + ".hasDefault"),
-			reqIf:      verifRuleList(nm+".reqIf", n, maxLen),
-			reqIfNot:   verifRuleList(nm+".reqIfNot", n, notLen),
-			conflicts:  verifRuleList(nm+".conflicts", n, maxLen),
+		var r verifRuleSet
+		if n != 3 {
+			ml, nl := maxLen, notLen
+			if maxLen > 1 && i > 0 {
+				ml, nl = 1, 2 // the longer lists of the thorough tier on the first property only (product of shapes)
+			}
+			r = verifRuleSet{
+				required:   nondetBool(nm + ".required"),
+				hasDefault: nondetBool(nm + ".hasDefault"),
+				reqIf:      verifRuleList(nm+".reqIf", n, ml),
+				reqIfNot:   verifRuleList(nm+".reqIfNot", n, nl),
+				conflicts:  verifRuleList(nm+".conflicts", n, ml),
+			}
+		} else {
+			// three properties: each carries one kind of rule (its target still a solver variable over all three
+			// names), only the first may have a default; the full product is the two-property grammar's job
+			r = verifRuleSet{required: nondetBool(nm + ".required")}
+			switch i {
+			case 0:
+				r.hasDefault = nondetBool(nm + ".hasDefault3")
+				r.reqIf = verifRuleList(nm+".reqIf3", n, 1)
+			case 1:
+				r.reqIfNot = verifRuleList(nm+".reqIfNot3", n, 2)
+			case 2:
+				r.conflicts = verifRuleList(nm+".conflicts3", n, 1)
+			}
 		}
-		if withDisabled {
+		if withDisabled && (maxLen == 1 || i == 0) {
 			r.disabled = nondetBool(nm + ".disabled")
 		}
 		var def *string
@@ -126,7 +146,7 @@ func VerifC03_Presence() {
 		}
 	}
 	accept := vAnd(noDisabledInUse, specPresence(n, rules, set))
-	verifAllMapOrders(verifTier() > 0 && n == 2)
+	// (iteration-order independence of these operations is C12's obligation)
 	got, err := o.Unserialize(raw)
 	verifAllMapOrders(false)
 	verifAssert("C03/presence/unserialize-accepts-iff-rules-hold", vIff(err == nil, accept))
